@@ -9,13 +9,14 @@ PROP = dict(
                 "is empty after the last handle is gone; second and third legs use the built-in managed types (metatype references with a "
                 "counting harness metatype, arrays of arrays, arrays of config items whose values are shareable or unique harness metatypes and which carry nested items, arrays of identifiers with inline and heap names).  Exploration, not proof."),
     level_note="trusts the live-set monitor in harness/c05_*.c/.cpp, gcc ASan/UBSan/LSan; content after reserve and after operations with injected constructor failure is adopted (liveness/conservation still asserted)",
-    legs=[dict(name="c05_elems", memcheck=1500, src=["c05_elems.c"], libs=["mptcore"], batch=512, lsan=True,
+    legs=[dict(name="c05_elems", memcheck=1500, src=["c05_elems.c"], libs=["mptplot", "mptcore"], batch=512, lsan=True,
                floors={"array_set": 5000, "buffer_set": 5000, "array_insert": 5000, "buffer_cut": 5000, "array_slice": 5000,
                        "array_reserve": 5000, "state:shared": 20000, "monitor:init-failures-injected": 2000,
                        "monitor:fini-calls": 100000, "monitor:conservation-checks": 100000,
                        "monitor:metaref-checks": 10000, "monitor:arrarr-checks": 10000,
                        "monitor:builtin-checks": 200000, "builtin:shared-buffer-copied": 10000, "monitor:meta-addref-refused": 10000,
-                       "config_item:nested-set": 5000, "identifier:array_set": 20000}),
+                       "config_item:nested-set": 5000, "identifier:array_set": 20000,
+                       "mpt_stage_data": 50000, "state:existing-dimension-of-shared-stage": 5000, "monitor:stage-audits": 100000}),
           dict(name="c05_cxx", memcheck=500, src=["c05_cxx.cpp"], libs=["mpt++", "mptio", "mptplot", "mptcore"], batch=512, lsan=True,
                floors={"typed_array_insert": 5000, "typed_array_resize": 5000, "typed_array_trim": 3000, "typed_array_skip": 3000,
                        "unique_array_insert": 2000, "refarray_insert": 5000, "itemarray_append": 20000, "itemarray_compact": 5000, "state:compact-moves-item-over-hole": 500, "monitor:itemarray-checks": 100000, "refarray_compact": 5000, "state:compact-with-hole-before-reference": 1000, "monitor:refarray-checks": 50000,
